@@ -793,3 +793,131 @@ Proof.
     destruct (_ && _); [eapply (EX HFloatStop); [discriminate | exact H | exact E] | eapply DP; [exact H | exact E | reflexivity]].
   - eapply DP; [exact H | exact E | reflexivity].
 Qed.
+
+(* ------------------------------------------------------------------ mps_secular_ga_mpsolve *)
+Definition why_ok (cfg : gcfg) (w : gwhy) : Prop :=
+  match w with
+  | WErrors => False
+  | WCrude => g_crude cfg = true
+  | WAvoidMp => g_avoid_mp cfg = true
+  | WStop ex ph sts => sec_check_stop ex ph sts = true /\ ph <> NoPhase
+  end.
+
+Definition gout_ok (cfg : gcfg) (o : gout) : Prop :=
+  match go_exit o with
+  | GDone w _ => why_ok cfg w
+  | GExitAfterCopy w => why_ok cfg w
+  | _ => True
+  end /\
+  (forall w io, go_exit o = GDone w (Some io) ->
+     exists cp0 rounds, improve (g_nonewton cfg) (g_user cfg) (g_pprec cfg) cp0 rounds (go_from o) = Some io /\
+                        go_final o = Some (io_sts io)).
+
+Ltac brk H :=
+  repeat match type of H with
+  | (match ?x with _ => _ end) = Some _ => let E := fresh "E" in destruct x eqn:E; try discriminate H
+  | (if ?x then _ else _) = Some _ => let E := fresh "E" in destruct x eqn:E; try discriminate H
+  end.
+
+Lemma sec_cleanup_ok : forall cfg w ph evs o,
+  sec_cleanup cfg w ph evs = Some o -> (w = WErrors \/ why_ok cfg w) -> gout_ok cfg o.
+Proof.
+  intros cfg w ph evs o H W. unfold sec_cleanup in H.
+  destruct evs as [|e rest]; [discriminate|]. destruct e; try discriminate.
+  destruct b.
+  - destruct rest; [|discriminate]. inversion H; subst; split; [exact I | discriminate].
+  - destruct W as [W|W]; [subst w; discriminate|].
+    destruct w; try discriminate; brk H; inversion H; subst; (split; [exact W|]); simpl; try discriminate;
+      intros w0 io0 EQ; inversion EQ; subst; eexists; eexists; (split; [eassumption | reflexivity]).
+Qed.
+
+Lemma err_return_ok : forall cfg ph evs o, err_return ph evs = Some o -> gout_ok cfg o.
+Proof. intros cfg ph evs o H. unfold err_return in H. destruct evs; [|discriminate]. inversion H; subst; split; [exact I | discriminate]. Qed.
+
+Lemma sec_loop_ok : forall cfg fuel ph jr packet evs o,
+  ph <> NoPhase -> sec_loop fuel cfg ph jr packet evs = Some o -> gout_ok cfg o.
+Proof.
+  intros cfg fuel; induction fuel as [|fuel IH]; intros ph jr packet evs o Hp H; [discriminate|].
+  cbn [sec_loop] in H.
+  assert (MP : MpPhase <> NoPhase) by discriminate.
+  brk H;
+    try (eapply err_return_ok; exact H);
+    try (eapply IH; [|exact H]; first [exact Hp | exact MP | (destruct (is_mp ph); [exact Hp | exact MP])]);
+    try (eapply sec_cleanup_ok; [exact H | right; simpl; first [assumption | (split; [assumption | first [exact Hp | exact MP | (destruct (is_mp ph); [exact Hp | exact MP])]])]]).
+Qed.
+
+Lemma sec_main_ok : forall cfg ph jr evs o, ph <> NoPhase -> sec_main cfg ph jr evs = Some o -> gout_ok cfg o.
+Proof.
+  intros cfg ph jr evs o Hp H. unfold sec_main in H.
+  brk H; try (eapply err_return_ok; exact H);
+    try (eapply sec_cleanup_ok; [exact H | left; reflexivity]);
+    try (eapply sec_loop_ok; [exact Hp | exact H]).
+Qed.
+
+Ltac phne := repeat match goal with |- context [if ?b then _ else _] => destruct b end; first [assumption | discriminate].
+
+Lemma sec_prelim_ok : forall cfg fuel ph evs o, sec_prelim fuel cfg ph evs = Some o -> gout_ok cfg o.
+Proof.
+  intros cfg fuel; induction fuel as [|fuel IH]; intros ph evs o H; [discriminate|].
+  cbn [sec_prelim] in H.
+  assert (FP : FloatPhase <> NoPhase) by discriminate.
+  assert (DP : DpePhase <> NoPhase) by discriminate.
+  brk H;
+    try (eapply err_return_ok; exact H);
+    try (eapply IH; exact H);
+    try (eapply sec_main_ok; [|exact H]; phne);
+    try (eapply sec_cleanup_ok; [exact H | first [left; reflexivity | right; simpl; first [assumption | split; [assumption | phne]]]]).
+Qed.
+
+(* the secular driver passes `cleanup:` and copies roots only in crude mode, in avoid-multiprecision mode (after an
+   iteration reported best_approx), or after a stop test that returned true in a phase that is set *)
+Theorem sec_run_cleanup_reasons : forall cfg evs o, sec_run cfg evs = Some o -> gout_ok cfg o.
+Proof.
+  intros cfg evs o H. unfold sec_run in H.
+  assert (FP : FloatPhase <> NoPhase) by discriminate.
+  brk H; try (eapply err_return_ok; exact H); try (eapply sec_prelim_ok; exact H);
+    try (eapply sec_main_ok; [exact FP | exact H]).
+Qed.
+
+Theorem sec_run_stop_computed : forall cfg evs o w imp,
+  sec_run cfg evs = Some o -> go_exit o = GDone w imp ->
+  match w with
+  | WStop ex ph sts => ex = false -> forallb is_computed sts = true
+  | WCrude => g_crude cfg = true
+  | WAvoidMp => g_avoid_mp cfg = true
+  | WErrors => False
+  end.
+Proof.
+  intros cfg evs o w imp H E. destruct (sec_run_cleanup_reasons _ _ _ H) as [K _]. rewrite E in K.
+  destruct w; simpl in K; try exact K. destruct K as [K1 K2]. intro X; subst.
+  eapply sec_check_stop_true_computed; eassumption.
+Qed.
+
+(* approximate goal: mps_improve runs last; when it is not skipped, ends normally, and no root is OUT, all are approximated *)
+Theorem sec_run_approximate : forall cfg evs o w io,
+  sec_run cfg evs = Some o -> go_exit o = GDone w (Some io) ->
+  io_over io = false -> io_skipped io = false -> Forall (fun r => rinc r <> INC_OUT) (go_from o) ->
+  exists sts, go_final o = Some sts /\ forallb is_approximated sts = true /\ length sts = length (go_from o).
+Proof.
+  intros cfg evs o w io H E V SK HO. destruct (sec_run_cleanup_reasons _ _ _ H) as [_ K].
+  destruct (K w io E) as [cp0 [rounds [EI EF]]].
+  destruct (improve_normal_all_approximated _ _ _ _ _ _ _ EI HO V SK) as [A B].
+  exists (io_sts io). split; [exact EF | split; assumption].
+Qed.
+
+(* REFUTED (model level; replayed on the real solver: Chebyshev input, approximate goal): a normal end of the secular
+   driver under the approximate goal with an ISOLATED, not approximated, root and no over_max: mps_improve returned at once *)
+Definition cheb_cfg : gcfg := mkGcfg GApproximate false NoPhase false false 100000 0 true false.
+Definition cheb_events : list gev :=
+  [GvCheckData true false; GvStart false; GvFpe false; GvErr false; GvStop false [ST_ISOLATED; ST_ISOLATED];
+   GvErr false; GvExitReq false; GvImprove 64 [] [mkRt ST_ISOLATED INC_IN true; mkRt ST_ISOLATED INC_IN true]].
+
+Theorem sec_approximate_without_mnewton_refuted : exists cfg evs o io,
+  g_goal cfg = GApproximate /\ sec_run cfg evs = Some o /\
+  go_exit o = GDone (WStop false FloatPhase [ST_ISOLATED; ST_ISOLATED]) (Some io) /\
+  io_over io = false /\ io_skipped io = true /\ go_final o = Some [ST_ISOLATED; ST_ISOLATED] /\
+  Forall (fun r => rinc r <> INC_OUT) (go_from o).
+Proof.
+  exists cheb_cfg, cheb_events. eexists. eexists. split; [reflexivity|]. split; [vm_compute; reflexivity|].
+  simpl. repeat split. repeat constructor; discriminate.
+Qed.
